@@ -81,8 +81,10 @@ def add_reorder(ds, rng, ns, vec2d):
 # ---- malformed stream ------------------------------------------------------------------------------------
 
 def _find(files, *prefixes):
+    # a stem matches the file of that name only ('spike_templates' -> spike_templates.npy, 'spikes.templates' ->
+    # spikes.templates[.label].npy), not an extra attribute file whose name merely begins with it (spike_templates_orig.npy)
     for n in sorted(files):
-        if n.startswith(prefixes):
+        if any(n == p or n.startswith(p + '.') for p in prefixes):
             return n
     return None
 
